@@ -5,6 +5,7 @@ import Wheatley.Generated.HandlerIR
 import Wheatley.Props.C17
 import Wheatley.Props.C15
 import Wheatley.Props.C10
+import Wheatley.Props.C07
 import Wheatley.Lemmas.Cli
 namespace Wheatley.C19
 open Wheatley.Server
@@ -624,5 +625,200 @@ theorem server_mode_starts_empty (port id : Option Int) :
   intro p hp
   subst hp
   rfl
+
+/-! ### Never mid-touch: for the whole run -/
+
+section Selection
+variable {K : Type} [Num K]
+
+/-- The method being rung is of kind `k`, no Look To handler is asleep on the socket thread, and the main thread
+is not about to run a spawned Look To. -/
+def Ringing (k : GenKind) (w : World K) : Prop :=
+  w.bot.gen.kind = k ∧ w.suspended = none ∧ (∀ it t, w.pc ≠ .waitLoaded it (some t))
+
+theorem beginWait_frame (w : World K) (bell : Nat) (uc hand : Bool) :
+    (w.beginWait bell uc hand).1.bot = w.bot ∧ (w.beginWait bell uc hand).1.suspended = w.suspended ∧
+    (∀ it t, (w.beginWait bell uc hand).2.2 ≠ .waitLoaded it (some t)) := by
+  unfold World.beginWait
+  split
+  · exact ⟨rfl, rfl, fun _ _ h => by cases h⟩
+  · simp only []
+    split <;> (split <;> exact ⟨rfl, rfl, fun _ _ h => by cases h⟩)
+
+theorem finishTick_ringing (wt : K → K) (k : GenKind) (w : World K) (bell : Nat) (uc : Bool)
+    (hk : w.bot.gen.kind = k) (hs : w.suspended = none) : Ringing k (w.finishTick wt bell uc).1 := by
+  unfold World.finishTick
+  simp only []
+  have hg := turn_keeps_selection w.bot bell uc
+  have hb := (foldl_applyOut_bot_crashed wt w.now (w.bot.tickEnd bell uc).2
+    ({ w with bot := (w.bot.tickEnd bell uc).1 } : World K)).1
+  have hsu := foldl_applyOut_suspended wt w.now (w.bot.tickEnd bell uc).2
+    ({ w with bot := (w.bot.tickEnd bell uc).1 } : World K)
+  split
+  · refine ⟨?_, ?_, fun _ _ h => by cases h⟩
+    · dsimp only; rw [hb]; exact hg.trans hk
+    · dsimp only; rw [hsu]; exact hs
+  · refine ⟨?_, ?_, fun _ _ h => by cases h⟩
+    · dsimp only; rw [hb]; exact hg.trans hk
+    · dsimp only; rw [hsu]; exact hs
+
+theorem afterInner_ringing (wt : K → K) (k : GenKind) (w : World K) (bell : Nat) (uc hand : Bool) (d : K) (js : Bool)
+    (hk : w.bot.gen.kind = k) (hs : w.suspended = none) : Ringing k (w.afterInner wt bell uc hand d js).1 := by
+  unfold World.afterInner
+  split
+  · split
+    · simp only []
+      split
+      · exact finishTick_ringing wt k _ bell uc hk hs
+      · exact ⟨hk, hs, fun _ _ h => by cases h⟩
+    · exact finishTick_ringing wt k _ bell uc hk hs
+  · exact finishTick_ringing wt k w bell uc hk hs
+
+theorem mainStep_ringing (wt : K → K) (k : GenKind) (w : World K) (h : Ringing k w) : Ringing k (w.mainStep wt).1 := by
+  obtain ⟨hk, hs, hp⟩ := h
+  unfold World.mainStep
+  split
+  · exact ⟨hk, hs, hp⟩
+  · -- waitLoaded
+    rename_i it lt hpc
+    cases lt with
+    | some t => exact absurd hpc (hp it t)
+    | none =>
+      simp only []
+      split
+      · split
+        · exact ⟨hk, hs, fun _ _ h => by cases h⟩
+        · exact ⟨hk, hs, fun _ _ h => by cases h⟩
+      · exact ⟨hk, hs, fun _ _ h => by cases h⟩
+  · exact ⟨hk, hs, fun _ _ h => by cases h⟩
+  · split
+    · exact ⟨hk, hs, fun _ _ h => by cases h⟩
+    · refine ⟨?_, ?_, ?_⟩
+      · rw [(foldl_applyOut_bot_crashed wt _ _ _).1]; exact hk
+      · rw [foldl_applyOut_suspended]; exact hs
+      · intro it t; rw [foldl_applyOut_pc]; intro h; cases h
+  · split
+    · exact ⟨hk, hs, fun _ _ h => by cases h⟩
+    · exact ⟨hk, hs, fun _ _ h => by cases h⟩
+  · split
+    · split
+      · exact ⟨hk, hs, fun _ _ h => by cases h⟩
+      · refine ⟨?_, ?_, ?_⟩
+        · dsimp only; rw [(beginWait_frame w _ _ _).1]; exact hk
+        · dsimp only; rw [(beginWait_frame w _ _ _).2.1]; exact hs
+        · intro it t; dsimp only; exact (beginWait_frame w _ _ _).2.2 it t
+    · refine ⟨?_, ?_, ?_⟩
+      · rw [(foldl_applyOut_bot_crashed wt _ _ _).1]; exact hk
+      · rw [foldl_applyOut_suspended]; exact hs
+      · intro it t; rw [foldl_applyOut_pc]; intro h; cases h
+  · split
+    · exact ⟨hk, hs, hp⟩
+    · exact afterInner_ringing wt k w _ _ _ _ _ hk hs
+  · apply afterInner_ringing
+    · split <;> exact hk
+    · split <;> exact hs
+  · exact afterInner_ringing wt k w _ _ _ _ _ hk hs
+  · exact ⟨hk, hs, fun _ _ h => by cases h⟩
+
+theorem deliver_ringing (wt : K → K) (k : GenKind) (w : World K) (e : Ev) (hq : C07.NotLookTo e) (h : Ringing k w) :
+    Ringing k (World.deliver wt w e) := by
+  obtain ⟨hk, hs, hp⟩ := h
+  obtain ⟨dp, _⟩ := deliver_never_rings wt w e
+  cases e with
+  | resume =>
+    have : World.deliver wt w .resume = w := by
+      unfold World.deliver
+      simp only [hs]
+    rw [this]
+    exact ⟨hk, hs, hp⟩
+  | msg m =>
+    have hm : m ≠ .call Generated.call_LOOK_TO := by
+      intro e
+      subst e
+      exact hq rfl
+    have hsus : w.lookToSuspends m = none := by
+      unfold World.lookToSuspends
+      cases m with
+      | call c =>
+        have hc : (c == Generated.call_LOOK_TO) = false := by
+          have : c ≠ Generated.call_LOOK_TO := fun e => hm (by rw [e])
+          simpa using this
+        simp [hc]
+      | _ => rfl
+    have hd : World.deliver wt w (.msg m) = w.deliverMsg wt m := by
+      unfold World.deliver
+      simp only [hsus]
+    refine ⟨?_, ?_, fun it t => by rw [dp]; exact hp it t⟩
+    · rw [hd]
+      unfold World.deliverMsg
+      simp only []
+      split
+      · dsimp only; rw [(foldl_applyOut_bot_crashed wt _ _ _).1]
+        exact (selection_waits_for_look_to w.bot m hm).trans hk
+      · rw [(foldl_applyOut_bot_crashed wt _ _ _).1]
+        exact (selection_waits_for_look_to w.bot m hm).trans hk
+    · rw [hd]
+      unfold World.deliverMsg
+      simp only []
+      split
+      · dsimp only; rw [foldl_applyOut_suspended]; exact hs
+      · rw [foldl_applyOut_suspended]; exact hs
+
+theorem sleep_go_ringing (wt : K → K) (limit : K) (k : GenKind) :
+    ∀ (events : List (K × Ev)) (w : World K), (∀ ev ∈ events, C07.NotLookTo ev.2) → Ringing k w →
+      Ringing k (World.sleep.go wt limit w events).1 ∧
+      (∀ ev ∈ (World.sleep.go wt limit w events).2, C07.NotLookTo ev.2) := by
+  intro events
+  induction events with
+  | nil => intro w _ h; exact ⟨h, by intro ev hev; cases hev⟩
+  | cons ev rest ih =>
+    intro w hq h
+    obtain ⟨t, m⟩ := ev
+    unfold World.sleep.go
+    split
+    · apply ih _ (fun ev' h' => hq ev' (by simp [h']))
+      apply deliver_ringing wt k _ m (hq (t, m) (by simp))
+      split
+      · exact h
+      · exact h
+    · exact ⟨h, hq⟩
+
+theorem sleep_ringing (wt : K → K) (endTime : K) (k : GenKind) (w : World K) (d : K) (events : List (K × Ev))
+    (hq : ∀ ev ∈ events, C07.NotLookTo ev.2) (h : Ringing k w) :
+    Ringing k (World.sleep wt endTime w d events).1 ∧
+    (∀ ev ∈ (World.sleep wt endTime w d events).2.1, C07.NotLookTo ev.2) := by
+  unfold World.sleep
+  simp only []
+  split
+  · exact sleep_go_ringing wt endTime k events w hq h
+  · obtain ⟨h1, h2⟩ := sleep_go_ringing wt (w.now + d) k events w hq h
+    exact ⟨⟨h1.1, h1.2.1, h1.2.2⟩, h2⟩
+
+/-- **Never mid-touch, however long, whatever else arrives**: whatever is selected, called, set, struck or resized
+while Wheatley runs, as long as nobody calls Look To the method being rung stays the method it is - the selection
+waits in the queue (`rowgen_only_queues`) and becomes current exactly at Look To (`look_to_applies_queued`).  For
+every run of `World.run`, of any length, under any events other than the call "Look to". -/
+theorem method_changes_only_at_look_to (wt : K → K) (endTime : K) (k : GenKind) :
+    ∀ (fuel : Nat) (w : World K) (events : List (K × Ev)), Ringing k w → (∀ ev ∈ events, C07.NotLookTo ev.2) →
+      (World.run wt endTime fuel w events).1.bot.gen.kind = k := by
+  intro fuel
+  induction fuel with
+  | zero => intro w events h _; exact h.1
+  | succ fuel ih =>
+    intro w events h hq
+    have hm := mainStep_ringing wt k w h
+    unfold World.run
+    split
+    · rename_i w1 heq; rw [heq] at hm; exact hm.1
+    · rename_i w1 heq; rw [heq] at hm; exact ih w1 events hm hq
+    · rename_i w1 d heq
+      rw [heq] at hm
+      obtain ⟨hsl, hsq⟩ := sleep_ringing wt endTime k w1 d events hq hm
+      simp only []
+      split
+      · exact hsl.1
+      · exact ih _ _ hsl hsq
+
+end Selection
 
 end Wheatley.C19
